@@ -477,6 +477,17 @@ Fixpoint m_source_frontier (es : list pentry) (fin : list (Z * Z)) (accepted : l
       else m_source_frontier r fin accepted key_of
   end.
 
+(* every InputPlugin.Commit carries a (source, offset) the pipeline accepted from that input: a commit for anything else
+   (a spawned child, a time-out, a stale copy) acknowledges a record that was never consumed *)
+Fixpoint m_commit_of_accepted (es : list pentry) (accepted : list (Z * Z)) : bool :=
+  match es with
+  | [] => true
+  | e :: r =>
+      if is_k 2 20 e && (pd e =? 0) then m_commit_of_accepted r ((pb e, pc e) :: accepted)
+      else if is_k 4 38 e then mem_key (pd e, pc e) accepted && m_commit_of_accepted r accepted
+      else m_commit_of_accepted r accepted
+  end.
+
 (* ---- C05 (pipeline part): every pooled event goes back exactly once; idle => in-use = 0 ---------- *)
 Definition m_pool_conservation (quiescent : bool) (es : list pentry) : bool :=
   nodup_keys (backs es) && forallb (fun k => mem_key k (puts es)) (backs es) &&
@@ -563,7 +574,7 @@ Definition quiescent (es : list pentry) : bool := no_kind 103 es.
 (* monitor ids: 1 wedge/panic observed, 2 per-stream commit order, 3 commit twice, 4 conservation,
    5 frontier, 6 commit not via an acknowledged batch, 7 pool conservation, 8 per-source frontier (spread),
    9 time-out to an idle action, 10 busy action saw another stream, 11 a processor sleeps while a charged stream has no wake-up coming,
-   12 a stream's commit number moved backwards *)
+   12 a stream's commit number moved backwards, 13 input commit of a (source, offset) that was never accepted *)
 Definition c02_mon (c : pcfg) (es : list pentry) : list (Z * bool) :=
   [(1, m_no_wedge es); (2, m_commits_increasing es [] []); (3, nodup_keys (input_commits es)); (4, m_conservation es);
    (12, m_scommit_monotone es [])].
@@ -575,7 +586,8 @@ Definition c01_mon (c : pcfg) (es : list pentry) : list (Z * bool) :=
 Definition c05_mon (c : pcfg) (es : list pentry) : list (Z * bool) := [(1, m_no_wedge es); (7, m_pool_conservation true es)].
 Definition c04_mon (c : pcfg) (es : list pentry) : list (Z * bool) :=
   [(1, m_no_wedge es); (4, m_conservation es); (11, m_no_sleeper es 0 0 0); (12, m_scommit_monotone es [])].
-Definition c10_mon (c : pcfg) (es : list pentry) : list (Z * bool) := [(1, m_no_wedge es); (8, m_source_frontier es [] [] [])].
+Definition c10_mon (c : pcfg) (es : list pentry) : list (Z * bool) :=
+  [(1, m_no_wedge es); (8, m_source_frontier es [] [] []); (13, m_commit_of_accepted es [])].
 Definition c13_mon (c : pcfg) (es : list pentry) : list (Z * bool) := [(1, m_no_wedge es); (9, m_timeout_to_busy es)].
 Definition c15_mon (c : pcfg) (es : list pentry) : list (Z * bool) :=
   [(1, m_no_wedge es); (10, m_single_stream es []); (9, m_timeout_to_busy es)].
